@@ -20,7 +20,7 @@ func newFnVC(P *Prog, f *ssa.Function, ct *Contract) *FnVC {
 	return &FnVC{P: P, fn: f, ct: ct, te: newTypeEnv(), vals: map[ssa.Value]string{}, tuples: map[ssa.Value][]string{},
 		reach: map[*ssa.BasicBlock]string{}, heapOut: map[*ssa.BasicBlock]HeapState{}, lazy: map[string]*lazySym{},
 		classN: map[string]int{}, loops: map[*ssa.BasicBlock]*loopInfo{}, latchOf: map[*ssa.BasicBlock][]*loopInfo{},
-		lemmasUsed: map[string]bool{}, invSeen: map[string]bool{}, globals: map[*ssa.Global]int{}, debug: map[types.Object][]*ssa.DebugRef{}, closures: map[ssa.Value]*ssa.MakeClosure{}, callN: map[string]int{}}
+		lemmasUsed: map[string]bool{}, invSeen: map[string]bool{}, trustedUsed: map[string]bool{}, globals: map[*ssa.Global]int{}, debug: map[types.Object][]*ssa.DebugRef{}, closures: map[ssa.Value]*ssa.MakeClosure{}, callN: map[string]int{}}
 }
 
 // verifyFunc generates the obligations of one function; panics in the generator are
@@ -163,10 +163,7 @@ func cmdVerify(args []string) {
 	}
 }
 
-func cmdCheck(args []string) {
-	fmt.Fprintln(os.Stderr, "not implemented yet")
-	os.Exit(2)
-}
+
 
 // lemmaObligations: every lemma used by a contract is proved as its own obligation.
 func lemmaObligations(P *Prog, used map[string]bool) []*Obligation {
